@@ -4,7 +4,7 @@
 # On success stores /verif/seeded/<PROPERTY>-<name>/ {patch.diff, demo files, meta.json}.
 set -u
 name="$1"; prop="$2"; needs="${3:-}"
-src=/tmp/seed/$name
+src=${SEED_SRC:-/tmp/seed/$name}   # SEED_SRC: the agent's worktree; SEED_AS: name to store under
 export GOFLAGS=-mod=mod GOPROXY=off GOSUMDB=off GOTOOLCHAIN=local
 [ -f "$src/seed/patch.diff" ] || { echo "no patch.diff"; exit 3; }
 wt=/tmp/confirm_$name
@@ -29,7 +29,7 @@ if run_demo; then echo "   PASSES with the change (not a demonstration)"; exit 1
 echo "-- existing suite with the change (must pass)"
 for d in $demos; do rm -rf "$wt/$d"; done
 if go build ./... && go test -vet=off -count=1 ./... >/tmp/confirm_$name.log 2>&1 && (cd cmd/participle && go build ./... ); then echo "   passes"; else echo "   existing suite FAILS with the change"; tail -8 /tmp/confirm_$name.log; exit 1; fi
-out=/verif/seeded/$prop-$name
+out=/verif/seeded/$prop-${SEED_AS:-$name}
 mkdir -p "$out/demo"
 cp "$src/seed/patch.diff" "$out/patch.diff"
 for d in $demos; do mkdir -p "$out/demo/$(dirname $d)"; if [ -d "$src/$d" ]; then cp -r "$src/$d" "$out/demo/$d"; else cp "$src/$d" "$out/demo/$d.txt"; fi; done
